@@ -667,6 +667,49 @@ pub fn drive_shortcuts(s: &mut Session, rng: &mut Rng, thorough: bool) {
             s.convert(f32::from_bits(b ^ (m0 ^ m1)));
         }
     }
+    // (a3) neighbouring floats: on a sparse scale, far outside every hysteresis window (so that each conversion
+    //      is a fresh search), inputs that differ by 1 .. 9 floats - below 4 V several floats share a
+    //      microvolt, and a search memoised on a coarser key than the input returns the earlier fraction
+    for _ in 0..(if thorough { 300 } else { 60 }) {
+        s.start();
+        let keep = rng.below(12) as u8;
+        let all: Vec<u8> = (0..12u8).filter(|k| *k != keep && (*k != (keep + 7) % 12 || rng.chance(1, 2))).collect();
+        s.forbid(&all);
+        for _ in 0..6 {
+            let v = (rng.unit() * 4.0) as f32;
+            s.convert(v);
+            let mut b = v.to_bits();
+            for _ in 0..4 {
+                b = b.wrapping_add(1 + rng.below(4) as u32);
+                s.convert(f32::from_bits(b));
+            }
+            s.convert(f32::from_bits(v.to_bits().wrapping_sub(3)));
+        }
+    }
+    // (a4) a scale edited back to what it was: without Y, two conversions inside one window; Y allowed, a
+    //      conversion that lands on Y; Y forbidden again (the scale word is the one remembered from the start)
+    //      and the same input once more - anything remembered "under this scale" is stale now
+    for y in 0..12u8 {
+        for &oct in [0u32, 4, 9].iter() {
+            s.start();
+            if rng.chance(1, 2) {
+                s.forbid(&[(y + 5) % 12]);
+            }
+            s.forbid(&[y]);
+            let x = (y + 3) % 12;
+            let vx = ((oct * 12 + x as u32) as f64 * semi + 0.4 * semi) as f32;
+            s.convert(vx);
+            s.convert(vx + 0.01);
+            s.allow(&[y]);
+            let vy = ((oct * 12 + y as u32) as f64 * semi + 0.3 * semi) as f32;
+            s.convert(vy);
+            s.forbid(&[y]);
+            s.convert(vy);
+            s.convert(vy + 0.004);
+            s.allow(&[y]);
+            s.convert(vy);
+        }
+    }
     // (b) argument lists longer than an octave: repeats first, the decisive notes late in the list
     for _ in 0..(if thorough { 200 } else { 50 }) {
         s.start();
